@@ -283,7 +283,12 @@ void    finish_rule (int mach, bool variable_trail_rule, int headcnt, int trailc
 		add_action ("M4_HOOK_SET_RULE_SETUP\n");
 
 	line_directive_out(NULL, infilename, linenum);
-        add_action("[[");
+
+	/* A continued ('|') action has no text of its own: open the quoted
+	 * action text only when some will follow.
+	 */
+	if (!continued_action)
+		add_action("[[");
 }
 
 
